@@ -29,6 +29,8 @@ type ModSpec struct {
 	Expr ast.Expr
 	Key  ast.Expr
 	Fld  string
+	Var  string   // bound key variable of a region ("ghost g[q | pred]")
+	Cond ast.Expr // "ghost g[k] when cond": the key is written only if cond holds
 }
 
 type Contract struct {
@@ -435,12 +437,29 @@ func parseModSpec(s string) (ModSpec, error) {
 	case "heap", "all", "fresh":
 		return ModSpec{Kind: w}, nil
 	case "ghost":
+		var cond ast.Expr
+		if j := strings.Index(r, " when "); j >= 0 {
+			c, err := parseSpecExpr(r[j+6:])
+			if err != nil {
+				return ModSpec{}, err
+			}
+			cond = c
+			r = strings.TrimSpace(r[:j])
+		}
 		if i := strings.IndexByte(r, '['); i >= 0 && strings.HasSuffix(r, "]") {
+			if j := strings.Index(r, " | "); j > i {
+				// region: ghost g[q | pred(q)] -- any key satisfying the predicate
+				e, err := parseSpecExpr(r[j+3 : len(r)-1])
+				if err != nil {
+					return ModSpec{}, err
+				}
+				return ModSpec{Kind: "ghostwhere", Name: strings.TrimSpace(r[:i]), Var: strings.TrimSpace(r[i+1 : j]), Expr: e, Text: s}, nil
+			}
 			e, err := parseSpecExpr(r[i+1 : len(r)-1])
 			if err != nil {
 				return ModSpec{}, err
 			}
-			return ModSpec{Kind: "ghostat", Name: strings.TrimSpace(r[:i]), Expr: e, Text: s}, nil
+			return ModSpec{Kind: "ghostat", Name: strings.TrimSpace(r[:i]), Expr: e, Text: s, Cond: cond}, nil
 		}
 		return ModSpec{Kind: "ghost", Name: r, Text: s}, nil
 	case "field":
